@@ -4,6 +4,7 @@ import NxProofs.MiscBase64
 import NxProofs.MiscAuth
 import NxProofs.MiscAuthClients
 import NxProofs.MiscCtr
+import NxProofs.MiscWire
 /-!
 # C19 — request authentication codes and auxiliary codecs
 
@@ -100,6 +101,27 @@ theorem nasc_b64_form_safe (d : Bytes) : ∀ c ∈ nascEncode d, c ≠ 43 ∧ c 
 /-- `nasc.decode_form(nasc.encode_form(f)) == f` for every form with byte-string values -/
 theorem nasc_form_roundtrip (f : List (Bytes × Bytes)) : nascDecodeForm (nascEncodeForm f) = .ok f :=
   nascForm_roundtrip f
+
+/-! ### every request of a call, not only the first (harness/aux_c19_wire.py)
+
+The harness compares EVERY request a call puts on the wire with `nascEncodeForm` of the logical request. That this
+comparison separates "coded once" from "coded again" for every non-empty value is a theorem: -/
+
+/-- the 3DS coding strictly lengthens every non-empty value, so no non-empty value is its own coding … -/
+theorem nasc_coding_has_no_fixed_point (d : Bytes) (h : d ≠ []) : nascEncode d ≠ d := nascEncode_ne_self d h
+
+/-- … and a value coded twice (a request object whose form was already coded and is sent again) never equals the
+    reference coding of the value -/
+theorem nasc_coded_twice_differs (d : Bytes) (h : d ≠ []) : nascEncode (nascEncode d) ≠ nascEncode d :=
+  nascEncode_twice_ne d h
+
+/-- what the receiver of a twice-coded form recovers: the once-coded strings, not the values -/
+theorem nasc_form_coded_twice_decodes_to_coded (f : List (Bytes × Bytes)) :
+    nascDecodeForm (nascEncodeForm (nascEncodeForm f)) = .ok (nascEncodeForm f) :=
+  nascForm_roundtrip (nascEncodeForm f)
+
+example : nascEncode (nascEncode [0xFB, 0xFF]) = [76, 105, 48, 52, 75, 103, 42, 42] := by decide +kernel   -- ".-8*" -> "Li04Kg**"
+example : nascEncode [] = [] := by decide      -- the empty value is the one fixed point (hypothesis `d ≠ []` is needed)
 
 /-! ## calibration data, Hpp -/
 
